@@ -826,8 +826,11 @@ func init() {
 		old(c)
 		c12parenKept(c)
 		c12scalarsVerbatim(c)
+		c12returnedBufferNotPooled(c)
+		c12leftAssociative(c)
 	}
-	All["C12"].Rules += " R6 R7"
+	All["C12"].Rules += " R6 R7 R8 R9"
+	addLevel("C12", "a buffer that a plan/request encoder returns is never handed back to the buffer pool by the same function (deferred Put of a returned buffer); the expression parser attaches an operator of equal precedence to the left (the printed text of a left-nested chain re-parses to the same tree).")
 }
 
 // c12parenKept — C12.R6.  conditionExpr splits the time bounds off a WHERE clause; what is
@@ -948,4 +951,127 @@ func c12scalarsVerbatim(c *an.Ctx) {
 	}
 	r.AddSites(n)
 	r.Floor(40, "scalar options in the encoder and decoder literals")
+}
+
+// c12returnedBufferNotPooled — C12.R8.  The encoded plan travels as a byte slice from the encoder
+// to the sender.  An encoder that puts the buffer it returns back into the pool (typically a
+// `defer pool.Put(buf)` added for the error exits) lets a concurrent query overwrite the bytes
+// before they are sent: the store executes another query's field list under this query's options.
+func c12returnedBufferNotPooled(c *an.Ctx) {
+	r := c.Rule("C12.R8", "K-OWNERSHIP", "engine/executor, query: a function never puts a buffer it returns back into the buffer pool")
+	n := 0
+	for _, d := range c.P.AllDecls() {
+		if !an.InPkg(d, "engine/executor", queryPkg, "engine/hybridqp", "lib/netstorage") {
+			continue
+		}
+		info := d.Pkg.TypesInfo
+		// deferred pool puts: defer <pool>.Put(x) / defer func(){ …Put(x)… }()
+		var put []types.Object
+		ast.Inspect(d.Decl.Body, func(m ast.Node) bool {
+			ds, ok := m.(*ast.DeferStmt)
+			if !ok {
+				return true
+			}
+			ast.Inspect(ds.Call, func(k ast.Node) bool {
+				ce, ok := k.(*ast.CallExpr)
+				if !ok || len(ce.Args) == 0 {
+					return true
+				}
+				sel, ok := ce.Fun.(*ast.SelectorExpr)
+				if !ok || sel.Sel.Name != "Put" {
+					return true
+				}
+				for _, a := range ce.Args {
+					if id, ok := ast.Unparen(a).(*ast.Ident); ok {
+						if o := info.Uses[id]; o != nil {
+							put = append(put, o)
+						}
+					}
+				}
+				return true
+			})
+			return true
+		})
+		if len(put) == 0 {
+			continue
+		}
+		n++
+		ast.Inspect(d.Decl.Body, func(m ast.Node) bool {
+			if _, isLit := m.(*ast.FuncLit); isLit {
+				return false
+			}
+			rs, ok := m.(*ast.ReturnStmt)
+			if !ok {
+				return true
+			}
+			for _, e := range rs.Results {
+				base := ast.Unparen(e)
+				if se, ok := base.(*ast.SliceExpr); ok {
+					base = ast.Unparen(se.X)
+				}
+				id, ok := base.(*ast.Ident)
+				if !ok {
+					continue
+				}
+				for _, o := range put {
+					if info.Uses[id] == o {
+						r.Fail(d.Name()+": returns a pooled buffer", c.P.Pos(rs.Pos()), "%s returns %s and also puts it back into the pool in a deferred call: the caller reads bytes another goroutine may already be overwriting", d.Name(), id.Name)
+					}
+				}
+			}
+			return true
+		})
+	}
+	r.AddSites(n)
+}
+
+// c12leftAssociative — C12.R9.  The planner's tree for `a - b - c` is ((a - b) - c); it is printed
+// without parentheses.  The store's parser must attach an operator of EQUAL precedence to the
+// left as well (stop descending when the node's operator binds at least as tightly), otherwise
+// the text re-parses as (a - (b - c)) and non-associative chains compute something else.
+func c12leftAssociative(c *an.Ctx) {
+	r := c.Rule("C12.R9", "K-PREDSHAPE", qlPkg+":(*Parser).ParseExpr — descent along the right spine stops at an operator of equal or higher precedence (left associativity)")
+	src := c.P.FuncSpec(qlPkg + ":Parser.ParseExpr")
+	if src == nil {
+		r.Unresolved(qlPkg + ":Parser.ParseExpr")
+		return
+	}
+	prev := c.P.DisableInline
+	c.P.DisableInline = true
+	f := c.P.Fn(src)
+	c.P.DisableInline = prev
+	n := 0
+	ast.Inspect(src.Decl.Body, func(m ast.Node) bool {
+		be, ok := m.(*ast.BinaryExpr)
+		if !ok {
+			return true
+		}
+		isPrec := func(e ast.Expr) bool {
+			ce, ok := ast.Unparen(e).(*ast.CallExpr)
+			if !ok {
+				return false
+			}
+			sel, ok := ce.Fun.(*ast.SelectorExpr)
+			return ok && sel.Sel.Name == "Precedence"
+		}
+		if !isPrec(be.X) || !isPrec(be.Y) {
+			return true
+		}
+		n++
+		a := f.AtomOf(be)
+		parts := strings.SplitN(a.Key, "<", 2)
+		if len(parts) != 2 {
+			r.Fail("ParseExpr: precedence test", c.P.Pos(be.Pos()), "the precedence comparison is not an ordering (%s)", a.Key)
+			return true
+		}
+		existingLeft := strings.Contains(parts[0], ".Op.Precedence()")
+		existingRight := strings.Contains(parts[1], ".Op.Precedence()")
+		// every correct spelling normalises to !(existing < new): stop when existing >= new
+		if !(existingLeft && !existingRight && !a.Pos) {
+			r.Fail("ParseExpr: equal precedence attaches to the right", c.P.Pos(be.Pos()), "the descent stops under the condition %s%s: an operator of equal precedence is no longer attached to the left, so `a - b - c` re-parses as a - (b - c)", map[bool]string{true: "", false: "!"}[a.Pos], a.Key)
+		}
+		return true
+	})
+	r.AddSites(n)
+	r.Floor(1, "precedence comparisons in ParseExpr")
 }
